@@ -235,6 +235,55 @@ func sscan(s, f string, p *int) bool {
 	return err == nil && n == 1
 }
 
+// CountingSink counts Write calls on the destination.
+type CountingSink struct {
+	W io.Writer
+	N int
+}
+
+func (c *CountingSink) Write(p []byte) (int, error) {
+	c.N++
+	return c.W.Write(p)
+}
+
+// ErrSink is the injected destination failure.
+var ErrSink = errors.New("verif: injected sink failure")
+
+// FaultSink accepts bytes until the k-th Write call (0-based), which it fails
+// with an error after accepting none ("err") or half ("short") of the bytes;
+// permanent faults keep failing afterwards.
+type FaultSink struct {
+	K         int
+	Kind      string
+	Permanent bool
+	N         int
+	Accepted  []byte
+	Fired     bool
+	FiredCall int // index (1-based) of the call active when the fault first fired; 0 = NewWriter
+	AtFail    []byte
+	Current   int
+}
+
+func (f *FaultSink) Write(p []byte) (int, error) {
+	i := f.N
+	f.N++
+	if i == f.K || (f.Permanent && i > f.K) {
+		n := 0
+		if f.Kind == "short" {
+			n = len(p) / 2
+		}
+		f.Accepted = append(f.Accepted, p[:n]...)
+		if !f.Fired {
+			f.Fired = true
+			f.FiredCall = f.Current
+			f.AtFail = append([]byte{}, f.Accepted...)
+		}
+		return n, ErrSink
+	}
+	f.Accepted = append(f.Accepted, p...)
+	return len(p), nil
+}
+
 // WriterResult is what a writer run produced.
 type WriterResult struct {
 	Bytes []byte
@@ -249,6 +298,9 @@ func RunWriter(tr *wl.Trace, w wl.Workload, sink io.Writer, buf *bytes.Buffer) *
 	if sink == nil {
 		sink = buf
 	}
+	fs, _ := sink.(*FaultSink)
+	cs := &CountingSink{W: sink}
+	sink = cs
 	tr.Add(wl.Ev{"ev": "Run", "id": w.ID, "cfg": wl.CfgEv(w.Cfg), "lib": wl.Blob("mcap-go/" + trimV(mcap.Version))})
 	var writer *mcap.Writer
 	var err error
@@ -265,8 +317,13 @@ func RunWriter(tr *wl.Trace, w wl.Workload, sink io.Writer, buf *bytes.Buffer) *
 		res.Bytes = buf.Bytes()
 		return res
 	}
-	tr.Add(wl.Ev{"ev": "New", "ret": "ok", "st": StateEv(writer)})
+	st0 := StateEv(writer)
+	st0["nw"] = cs.N
+	tr.Add(wl.Ev{"ev": "New", "ret": "ok", "st": st0})
 	for i, c := range w.Calls {
+		if fs != nil {
+			fs.Current = i + 1
+		}
 		ret, cerr := Apply(writer, c)
 		e := CallEv(i, c)
 		if c.Op == "header" {
@@ -276,7 +333,9 @@ func RunWriter(tr *wl.Trace, w wl.Workload, sink io.Writer, buf *bytes.Buffer) *
 		if cerr != nil {
 			e["why"] = cerr.Error()
 		}
-		e["st"] = StateEv(writer)
+		st := StateEv(writer)
+		st["nw"] = cs.N
+		e["st"] = st
 		tr.Add(e)
 		res.Rets = append(res.Rets, ret)
 		res.Errs = append(res.Errs, cerr)
